@@ -8,6 +8,7 @@ import (
 	"strconv"
 	"strings"
 
+	"verifharness/gram"
 	"verifharness/ref"
 	"verifharness/ygo"
 )
@@ -33,6 +34,10 @@ func init() {
 			// the "iff" of the warning clause needs precedence declarations: every decoration of the
 			// conflicting rule sets of the small classes (the enumeration C04 uses for its cells)
 			forEachDecorated(w, int64(1)<<39, func(c *GCase) { c03Eval(w, c) })
+			// yaccgo numbers symbols by name and states by discovery order: every renaming of the
+			// nonterminals (and of the named tokens) of the fifteen-symbol calculator gives another
+			// numbering of the same automaton; the lookahead sets must not care
+			c03Renamings(w, int64(1)<<40)
 		},
 		Replay: func(w *Worker, raw json.RawMessage) {
 			var c GCase
@@ -209,4 +214,47 @@ func itemsText(g *ref.Grammar, items []ref.Item) string {
 		parts = append(parts, strings.TrimSpace(s))
 	}
 	return "{" + strings.Join(parts, "; ") + "}"
+}
+
+func c03Renamings(w *Worker, base int64) {
+	var calc *gram.Spec
+	for _, n := range gram.Families() {
+		if n.Name == "calc-15" {
+			calc = n.Spec
+		}
+	}
+	if calc == nil {
+		return
+	}
+	idx := base
+	for _, names := range [][]string{calc.Nonterminals(), {"TNUM", "TID", "TSEMI"}} {
+		perm := append([]string(nil), names...)
+		var rec func(k int)
+		rec = func(k int) {
+			if k == len(perm) {
+				if w.Mine(idx) {
+					m := map[string]string{}
+					same := true
+					for i, n := range names {
+						m[n] = perm[i]
+						same = same && n == perm[i]
+					}
+					if !same {
+						c := &GCase{Origin: "family:calc-15/renamed", Spec: calc.Renamed(m)}
+						w.Begin(idx, c)
+						w.Count("renamings_of_calc_15", 1)
+						c03Eval(w, c)
+					}
+				}
+				idx++
+				return
+			}
+			for i := k; i < len(perm); i++ {
+				perm[k], perm[i] = perm[i], perm[k]
+				rec(k + 1)
+				perm[k], perm[i] = perm[i], perm[k]
+			}
+		}
+		rec(0)
+	}
 }
